@@ -3313,7 +3313,7 @@ iwrc jbl_merge_patch(struct jbl *jbl, const char *patchjson) {
 
 finish:
   iwpool_destroy(pool);
-  return 0;
+  return rc;
 }
 
 iwrc jbl_merge_patch_jbl(struct jbl *jbl, struct jbl *patch) {
